@@ -5,6 +5,12 @@ import json, os, subprocess, sys
 HERE = os.path.dirname(os.path.dirname(os.path.abspath(__file__)))
 idx = json.load(open(os.path.join(HERE, "mutants", "index.json")))
 flt = sys.argv[1] if len(sys.argv) > 1 else ""
+# the independently seeded changes (seeded/<id>[-x]/patch.diff) are run against the check of their property
+sd = os.path.join(HERE, "seeded")
+for d in sorted(os.listdir(sd)) if os.path.isdir(sd) else []:
+    pth = os.path.join(sd, d, "patch.diff")
+    if os.path.exists(pth):
+        idx.append({"patch": os.path.join("..", "seeded", d, "patch.diff"), "checks": [d.split("-")[0]], "what": "seeded change for %s" % d})
 bad = 0
 for m in idx:
     if flt and flt not in m["patch"]:
